@@ -6,6 +6,7 @@ import (
 
 	"github.com/nspcc-dev/neofs-node/pkg/local_object_storage/blobstor/common"
 	"github.com/nspcc-dev/neofs-node/pkg/local_object_storage/util/logicerr"
+	"github.com/nspcc-dev/neofs-node/pkg/util/verifhook"
 	apistatus "github.com/nspcc-dev/neofs-sdk-go/client/status"
 	"github.com/nspcc-dev/neofs-sdk-go/object"
 	oid "github.com/nspcc-dev/neofs-sdk-go/object/id"
@@ -18,6 +19,7 @@ func (c *cache) Get(addr oid.Address) (*object.Object, error) {
 	if !c.objCounters.HasAddress(addr) {
 		return nil, logicerr.Wrap(apistatus.ObjectNotFound{})
 	}
+	verifhook.Point("wc.get.afterCounter")
 	obj, err := c.fsTree.Get(addr)
 	if err != nil {
 		return nil, logicerr.Wrap(apistatus.ObjectNotFound{})
@@ -33,6 +35,7 @@ func (c *cache) Head(addr oid.Address) (*object.Object, error) {
 	if !c.objCounters.HasAddress(addr) {
 		return nil, logicerr.Wrap(apistatus.ObjectNotFound{})
 	}
+	verifhook.Point("wc.get.afterCounter")
 	obj, err := c.fsTree.Head(addr)
 	if err != nil {
 		return nil, logicerr.Wrap(fmt.Errorf("%w: %w", apistatus.ErrObjectNotFound, err))
@@ -83,6 +86,7 @@ func (c *cache) GetBytes(addr oid.Address) ([]byte, error) {
 	if !c.objCounters.HasAddress(addr) {
 		return nil, logicerr.Wrap(apistatus.ObjectNotFound{})
 	}
+	verifhook.Point("wc.get.afterCounter")
 	b, err := c.fsTree.GetBytes(addr)
 	if err != nil {
 		return nil, logicerr.Wrap(apistatus.ObjectNotFound{})
@@ -99,6 +103,7 @@ func (c *cache) GetStream(addr oid.Address) (*object.Object, io.ReadCloser, erro
 	if !c.objCounters.HasAddress(addr) {
 		return nil, nil, logicerr.Wrap(apistatus.ErrObjectNotFound)
 	}
+	verifhook.Point("wc.get.afterCounter")
 	stream, reader, err := c.fsTree.GetStream(addr)
 	if err != nil {
 		return nil, nil, logicerr.Wrap(apistatus.ErrObjectNotFound)
@@ -120,6 +125,7 @@ func (c *cache) GetRangeStream(addr oid.Address, rng common.PayloadRange, readHe
 		return nil, 0, nil, logicerr.Wrap(apistatus.ErrObjectNotFound)
 	}
 
+	verifhook.Point("wc.get.afterCounter")
 	hdr, pldLen, stream, err := c.fsTree.GetRangeStream(addr, rng, readHeader)
 	if err != nil {
 		return nil, 0, nil, fmt.Errorf("get range stream from underlying FS tree: %w", err)
